@@ -292,6 +292,50 @@ void profile_io(Gen &g, bool damage_heavy) {
 	p.knobs["indep"] = "0"; p.knobs["fresh"] = "0";
 }
 
+
+// lu: component-level history on mpq_ILLfactor_* (C13)
+void profile_lu(Gen &g) {
+	Plan &p = g.p; Rng &r = g.r;
+	int rounds = r.range(1, 3);
+	for (int k = 0; k < rounds; k++) {
+		Op f = g.mk(0, "lu"); g.set(f, "what", "factor"); g.seti(f, "dim", r.below(14)); g.seti(f, "fam", r.below(6)); g.seti(f, "seed", r.below(100000)); g.seti(f, "num", r.below(3));
+		if (r.chance(1, 2)) g.seti(f, "etamax", r.range(1, 12)); if (r.chance(1, 3)) g.seti(f, "maxk", r.range(1, 30)); if (r.chance(1, 3)) g.seti(f, "p", r.range(1, 8));
+		if (r.chance(1, 2)) g.seti(f, "densemin", r.range(1, 10)); if (r.chance(1, 2)) g.seti(f, "spacemul", r.below(40)); if (r.chance(1, 3)) g.seti(f, "densefract", r.below(19));
+		p.ops.push_back(f);
+		int n = g.longrun ? r.range(40, 150) : r.range(3, 40);
+		for (int t = 0; t < n; t++) { Op o = g.mk(0, "lu"); int d = (int)r.below(10);
+			if (d < 5) { g.set(o, "what", "update"); g.seti(o, "pos", r.below(14)); g.seti(o, "col", r.below(20)); g.seti(o, "mutate", r.chance(1, 2)); g.seti(o, "seed", r.below(100000)); g.seti(o, "num", r.below(3)); }
+			else { g.set(o, "what", d < 8 ? "ftran" : "btran"); g.seti(o, "seed", r.below(100000)); g.seti(o, "num", r.below(3)); }
+			p.ops.push_back(o); }
+	}
+	p.knobs["indep"] = "0";
+}
+
+
+// cli: esolver invocations on files written by the library (C19)
+void profile_cli(Gen &g) {
+	Plan &p = g.p; Rng &r = g.r;
+	int nl = r.range(1, 2); for (int k = 0; k < nl; k++) p.lps.push_back(g.gen_lp(k, 6, 6));
+	p.ops.push_back(g.gen_create(0, nl));
+	int rounds = r.range(1, 3); int nfile = 0;
+	for (int k = 0; k < rounds; k++) {
+		int ne = r.range(0, 3); for (int e = 0; e < ne; e++) p.ops.push_back(g.gen_edit(0));
+		Op w = g.mk(0, "write"); g.seti(w, "o", r.below(3)); g.set(w, "fmt", r.chance(1, 2) ? "LP" : "MPS"); g.set(w, "via", "path"); g.set(w, "path", strf("in%d", nfile++)); g.seti(w, "comp", r.below(3)); p.ops.push_back(w);
+		if (g.faults && r.chance(1, 3)) { Op dm = g.mk(0, "damage"); g.seti(dm, "pick", r.below(8)); g.set(dm, "kind", std::vector<std::string>{"torn", "flip", "token", "zero_tail", "block_dup"}[r.below(5)]); g.seti(dm, "at", r.below(100000)); g.seti(dm, "len", r.below(56)); g.seti(dm, "bit", r.below(8)); p.ops.push_back(dm); }
+		int runs = r.range(1, 2);
+		for (int t = 0; t < runs; t++) {
+			Op e = g.mk(0, "esolver"); g.seti(e, "pick", -1); g.seti(e, "forceL", r.below(2)); g.seti(e, "solcomp", r.chance(1, 3) ? r.below(3) : 0);
+			if (r.chance(1, 2)) g.seti(e, r.chance(1, 2) ? "p" : "d", r.below(4)); g.seti(e, "S", r.chance(1, 4)); if (r.chance(1, 3)) g.seti(e, "P", r.below(4));
+			g.seti(e, "b", t == 0 && r.chance(1, 2)); g.seti(e, "B", t == 1);
+			if (r.chance(1, 15)) g.seti(e, "missing", 1);
+			if (g.faults && r.chance(1, 6)) { Fault f; f.kind = "io.open_fail"; f.a["e"] = std::to_string(r.below(5)); e.faults.push_back(f); }
+			else if (r.chance(1, 4)) { Fault f; f.kind = "io.chunk"; f.a["n"] = std::to_string(r.range(1, 64)); e.faults.push_back(f); }
+			p.ops.push_back(e);
+		}
+	}
+	p.knobs["indep"] = "0"; p.knobs["fresh"] = "0"; p.knobs["writecheck"] = "0";
+}
+
 }   // namespace
 
 Plan make_plan(const std::string &profile, uint64_t seed, const Args &opts) {
@@ -304,6 +348,8 @@ Plan make_plan(const std::string &profile, uint64_t seed, const Args &opts) {
 	else if (profile == "solve") profile_solve(g);
 	else if (profile == "config") profile_config(g);
 	else if (profile == "io") profile_io(g, false);
+	else if (profile == "lu") profile_lu(g);
+	else if (profile == "cli") profile_cli(g);
 	else if (profile == "reader") profile_io(g, true);
 	else profile_hist(g, false, false);
 	for (auto &kv : opts) if (starts_with(kv.first, "knob.")) p.knobs[kv.first.substr(5)] = kv.second;
